@@ -156,6 +156,25 @@ def check(S, S0, R, L, acc, naming='ints'):
             r = call(getattr(K, meth), x)
             if not (r[0] == 'exc' and r[1] == 'RuntimeError'):
                 bad('non-state-' + meth, 'RuntimeError', r, state=repr(x))
+    # a replaced labelling function may carry keys that are not states (written for a larger model)
+    K2 = call(Kripke, S=None if S is None else list(S), S0=None if S0 is None else list(S0), R=list(R), L=lab_copy(L))
+    if K2[0] == 'ok' and nodes:
+        newL = dict((s, set(['z'])) for s in nodes)
+        newL[nm(9)] = set(['ghost'])
+        newL['zz_'] = set(['ghost'])
+        r = call(K2[1].replace_labelling_function, newL)
+        if r[0] == 'ok':
+            for x in (nm(9), 'zz_'):
+                for meth in ('labels', 'next'):
+                    rr = call(getattr(K2[1], meth), x)
+                    if not (rr[0] == 'exc' and rr[1] == 'RuntimeError'):
+                        bad('non-state-%s-after-replace_labelling_function' % meth, 'RuntimeError', rr, state=repr(x))
+            for s in nodes:
+                rr = call(K2[1].labels, s)
+                if rr[0] != 'ok' or rr[1] != set(['z']):
+                    bad('labels-after-replace_labelling_function', ['z'], rr[1:], state=repr(s))
+            if set(K2[1].states()) != nodes:
+                bad('states-after-replace_labelling_function', sorted(nodes, key=repr), sorted(K2[1].states(), key=repr))
     before = snap(K)
     # clone
     r = call(K.clone)
@@ -223,6 +242,10 @@ def run_shard(shard, tier, seed, acc):
             acc.capped()
             return
         variants = [R] if len(R) < 2 else [R, tuple(reversed(R))]
+        if R:
+            # R is "a collection of edges": a list may name a pair twice
+            variants.append(tuple(R) + (R[0],))
+            variants.append((R[-1],) + tuple(R) + (R[-1], R[0]))
         for Rv in variants:
             for S in S_MENU:
                 for S0 in S0_MENU:
